@@ -1513,7 +1513,7 @@ def main():
         run(chk, tabs, "thorough", 600)
     else:
         run(chk, tabs, "quick", 70)
-        if chk.broken() and not chk.spec_failures:
+        if (chk.broken() or chk.anchor_changed) and not chk.spec_failures:
             chk.notes.append("escalated: more samples / probes on the records the table theorem rejects")
             run(chk, tabs, "quick", 90, escalate=True)
     if chk.notes:
